@@ -411,26 +411,37 @@ class Ctx:
 # ------------------------------------------------------------------ scalar kernels
 
 class Kernel:
-    """a loop-free kernel with scalar inputs, decided path by path against a dual-mode specification"""
+    """a loop-free kernel decided path by path against a dual-mode specification.
+    inputs: [(name, ty)] with ty an integer type or 'bool'.  Either `make_args(ex, ins)` builds the argument values from
+    fresh scalar inputs, or `make(ex)` returns (ins: {name: z3 term}, args, pre: [z3]) for inputs that live inside
+    structured symbolic values."""
 
     def __init__(self, name, func, inputs, make_args, decode, spec, native=None, pre=None, samples=None, expect_tags=(),
-                 role=None, crate='core', mode='int', setup=None, panic_ok=False):
+                 role=None, crate='core', mode='int', setup=None, make=None, gen=None, start=None):
         self.name, self.func, self.inputs, self.make_args, self.decode, self.spec = name, func, inputs, make_args, decode, spec
         self.native, self.pre, self.samples, self.expect_tags = native, pre, samples or [], expect_tags
         self.role = role or name
-        self.crate, self.mode, self.setup = crate, mode, setup
+        self.crate, self.mode, self.setup, self.make, self.gen = crate, mode, setup, make, gen
 
 
 def boundary_values(ty):
+    if ty == 'bool':
+        return [False, True]
     lo, hi = rng(ty)
-    vs = {lo, lo + 1, -1, 0, 1, hi - 1, hi, 2, 10, 1000, 60000, 3600000, 86400000, -86400000, 86399999, -86399999, 86400001,
-          -86400001, hi // 2, lo // 2, 9999, 10000, -9999, -10000, 127, 128, 255, 256, 31, 32, 33}
+    vs = {lo, lo + 1, -1, 0, 1, hi - 1, hi, 2, 3, 4, 5, 10, 1000, 60000, 3600000, 86400000, -86400000, 86399999, -86399999, 86400001,
+          -86400001, hi // 2, lo // 2, 9999, 10000, -9999, -10000, 127, 128, 255, 256, 31, 32, 33, 3037000499, 3037000500, -3037000500,
+          4294967296, -4294967296, 2147483648}
     return sorted(v for v in vs if lo <= v <= hi)
 
 
-def model_int(model, term):
+def model_val(model, term):
     v = model.eval(term, model_completion=True)
+    if z3.is_bool(v):
+        return z3.is_true(v)
     return v.as_long() if hasattr(v, 'as_long') else int(str(v))
+
+
+model_int = model_val
 
 
 def run_kernel(ctx, K):
@@ -438,12 +449,17 @@ def run_kernel(ctx, K):
     if K.setup:
         K.setup(ex)
     ctx.use(K.func)
-    ins = {n: ex.fresh_int(ty, n) for n, ty in K.inputs}
-    ins_t = {n: v.t for n, v in ins.items()}
+    extra_pre = []
+    if K.make is not None:
+        ins_t, args, extra_pre = K.make(ex)
+    else:
+        ins = {n: (ex.fresh_bool(n) if ty == 'bool' else ex.fresh_int(ty, n)) for n, ty in K.inputs}
+        ins_t = {n: v.t for n, v in ins.items()}
+        args = K.make_args(ex, ins)
     pre = [K.pre(**ins_t)] if K.pre else []
-    pre = [p if isinstance(p, z3.ExprRef) else z3.BoolVal(bool(p)) for p in pre]
+    pre = [p if isinstance(p, z3.ExprRef) else z3.BoolVal(bool(p)) for p in pre] + list(extra_pre)
     t = time.time()
-    outs = ex.run(K.func, K.make_args(ex, ins))
+    outs = ex.run(K.func, args)
     ctx.absorb(ex)
     decoded = []
     for o in outs:
@@ -457,7 +473,7 @@ def run_kernel(ctx, K):
     ctx.log(f'  [{K.name}] {len(outs)} paths in {time.time() - t:.2f}s: ' + ', '.join(sorted({d[1] for d in decoded})))
 
     def replay(model, tagged):
-        conc = {n: model_int(model, ins_t[n]) for n, _ in K.inputs}
+        conc = {n: model_val(model, ins_t[n]) for n, _ in K.inputs}
         if K.native is None:
             return 'unreplayed', f'counterexample {conc} (no native route for this kernel)'
         ntag, nvals = K.native(ctx.native, conc)
@@ -487,19 +503,28 @@ def run_kernel(ctx, K):
         ctx.decide(f'{K.name}/witness:{tag}', pre + [z3.Or(conds) if conds else z3.BoolVal(False)], expect='sat', ex=ex)
     # 4. translator validation: the encoding evaluated on concrete inputs must equal the real code
     if K.native is not None:
-        samples = list(K.samples)
+        names = [n for n, _ in K.inputs]
         tys = [ty for _, ty in K.inputs]
+        samples = [dict(zip(names, smp)) if not isinstance(smp, dict) else smp for smp in (list(K.samples) + (K.samples_fn() if getattr(K, 'samples_fn', None) else []))]
         bv = [boundary_values(ty) for ty in tys]
-        for _ in range(12 if ctx.tier == 'quick' else 60):
-            samples.append(tuple(ctx.rand.choice(b) if ctx.rand.random() < 0.6 else ctx.rand.randint(*rng(ty)) for b, ty in zip(bv, tys)))
+        nrand = 12 if ctx.tier == 'quick' else 60
+        for _ in range(nrand):
+            if K.gen is not None:
+                samples.append(K.gen(ctx.rand))
+            else:
+                samples.append({n: (ctx.rand.choice(b) if (ty == 'bool' or ctx.rand.random() < 0.6) else ctx.rand.randint(*rng(ty)))
+                                for n, b, ty in zip(names, bv, tys)})
         if len(tys) == 1:
-            samples += [(v,) for v in bv[0]]
+            samples += [{names[0]: v} for v in bv[0]]
         nval = 0
-        for smp in samples:
-            conc = dict(zip([n for n, _ in K.inputs], smp))
-            if K.pre and not K.pre(**conc):
-                continue
-            pins = [ins_t[n] == v for n, v in conc.items()]
+        for conc in samples:
+            pins = [ins_t[n] == (z3.BoolVal(v) if isinstance(v, bool) else v) for n, v in conc.items()]
+            s = z3.Solver()
+            s.set('timeout', 10000)
+            for f in ex.invariants + pre + pins:
+                s.add(f)
+            if s.check() != z3.sat:
+                continue        # sample outside the precondition
             hit = None
             for o, tag, vals, msg in decoded:
                 s = z3.Solver()
@@ -508,7 +533,7 @@ def run_kernel(ctx, K):
                     s.add(f)
                 if s.check() == z3.sat:
                     m = s.model()
-                    hit = (tag, [model_int(m, v) for v in vals])
+                    hit = (tag, [model_val(m, v) if isinstance(v, z3.ExprRef) else v for v in vals])
                     break
             ntag, nvals = K.native(ctx.native, conc)
             nval += 1
